@@ -92,6 +92,11 @@ pub struct ExPlan {
     /// their own, so a stall of the terminal must change nothing.
     #[serde(default)]
     pub paced_gaps_ms: Vec<u32>,
+    /// Indices of replies that are malformed by the wire format itself (a length prefix or a
+    /// fixed-width field cut off, a mandatory byte missing): the exchange must fail there even if
+    /// the library's parser should accept the packet.
+    #[serde(default)]
+    pub malformed_replies: Vec<u32>,
     /// Label of the injected fault (for signatures / evidence).
     pub fault: String,
 }
@@ -110,6 +115,7 @@ impl ExPlan {
             epipe_at: None,
             paced_cuts: vec![],
             paced_gaps_ms: vec![],
+            malformed_replies: vec![],
             fault: String::new(),
         }
     }
@@ -190,7 +196,7 @@ impl ScriptTerm {
             outstanding: false,
             released: 0,
             frames_seen: 0,
-            ack_positive: plan.ack == rc::ACK,
+            ack_positive: plan.ack == rc::ACK || ack_carries_data(plan),
             rec,
         }
     }
@@ -352,6 +358,17 @@ pub struct Predicted {
 
 /// Reference model of the sequence layer over the planned terminal stream.
 pub fn predict(plan: &ExPlan) -> Result<Predicted, (String, String)> {
+    predict_with(plan, false)
+}
+
+/// An acknowledgement `80 00` that carries data: the statement does not say whether it counts as
+/// positive. Both readings are accepted (see `run_and_judge`); in both the client must have
+/// consumed exactly that packet.
+pub fn ack_carries_data(plan: &ExPlan) -> bool {
+    plan.ack.len() > 3 && plan.ack[0] == 0x80 && plan.ack[1] == 0x00 && rc::frame_dims(&plan.ack).map(|(h, l)| h + l == plan.ack.len()).unwrap_or(false)
+}
+
+pub fn predict_with(plan: &ExPlan, ack_with_data_is_positive: bool) -> Result<Predicted, (String, String)> {
     let info = seqs::info(plan.seq);
     let full = plan.stream();
     let avail: &[u8] = match plan.cut {
@@ -385,7 +402,7 @@ pub fn predict(plan: &ExPlan) -> Result<Predicted, (String, String)> {
     };
     pos += frame.len();
     p.read_limit = pos as u64;
-    if frame != rc::ACK {
+    if frame != rc::ACK && !(ack_with_data_is_positive && ack_carries_data(plan) && frame == &plan.ack[..]) {
         p.error = Some("negative_ack");
         return Ok(p);
     }
@@ -403,7 +420,7 @@ pub fn predict(plan: &ExPlan) -> Result<Predicted, (String, String)> {
             p.error = Some("foreign_control_field");
             return Ok(p);
         }
-        if !seqs::library_parses(plan.seq, frame)? {
+        if plan.malformed_replies.contains(&k) || !seqs::library_parses(plan.seq, frame)? {
             p.error = Some("undecodable_body");
             return Ok(p);
         }
@@ -491,6 +508,21 @@ pub fn execute(plan: &ExPlan) -> ExRun {
 
 /// Runs the plan and judges it against the reference model.
 pub fn run_and_judge(plan: &ExPlan, want_trace: bool) -> RunOut {
+    if ack_carries_data(plan) {
+        let a = run_and_judge_with(plan, want_trace, true);
+        if a.violations.is_empty() {
+            return a;
+        }
+        let b = run_and_judge_with(plan, want_trace, false);
+        if b.violations.is_empty() {
+            return b;
+        }
+        return a;
+    }
+    run_and_judge_with(plan, want_trace, false)
+}
+
+fn run_and_judge_with(plan: &ExPlan, want_trace: bool, ack_with_data_is_positive: bool) -> RunOut {
     let mut out = RunOut::new();
     let info = seqs::info(plan.seq);
     let sigbase = if plan.fault.is_empty() {
@@ -498,7 +530,7 @@ pub fn run_and_judge(plan: &ExPlan, want_trace: bool) -> RunOut {
     } else {
         format!("{}/{}", info.name, plan.fault)
     };
-    let pred = match predict(plan) {
+    let pred = match predict_with(plan, ack_with_data_is_positive) {
         Ok(p) => {
             if matches!(p.error, Some("stream_ended_before_ack") | Some("stream_ended_mid_exchange")) && plan.cut.is_none() {
                 eprintln!("HARNESS ERROR: ill-formed plan (terminal stream is incomplete but never closed): {:?}", plan);
